@@ -127,12 +127,35 @@ def entity_row(rng, combo, dataset="trees", exprs=None, headers=None):
     return row
 
 
-def mk_form(rows, entities, root=None):
+# values of the settings `namespaces` cell (never declaring the prefix `entities` themselves): well-formed
+# declarations in the three quote styles, several at once, a prefix that is already standard, malformed tokens
+NAMESPACES = [
+    'ex="http://example.com/xforms"',
+    "ex='http://example.com/xforms'",
+    "ex=http://example.com/xforms",
+    'esri="http://esri.com/xforms" enk="http://enketo.org/xforms" naf="http://nafundi.com/xforms"',
+    'a="urn:a" b="urn:b"',
+    'jr="http://example.com/not-javarosa" ex="http://example.com/xforms"',
+    'ex="http://example.com/xforms" junk',
+    'junk ex="http://example.com/xforms"',
+    'a=b=c ex="urn:x"',
+    '="urn:noprefix" ex="urn:x"',
+    'ex="urn:1" ex="urn:2"',
+    "junk",
+]
+
+
+def mk_form(rows, entities, root=None, namespaces=None):
     form = {"survey": rows, "choices": [dict(c) for c in CHOICES]}
     if entities is not None:
         form["entities"] = entities
+    st = {}
     if root:
-        form["settings"] = [{"name": root}]
+        st["name"] = root
+    if namespaces is not None:
+        st["namespaces"] = namespaces
+    if st:
+        form["settings"] = [st]
     return form
 
 
@@ -212,6 +235,16 @@ def enumerate_cases(ctx, factor):
             form = mk_form([dict(r) for r in rows], [])
             form["entities_cols"] = ["dataset", "label"]
             yield "empty-entities-sheet", form
+    # (5b) settings `namespaces` x entity declared or not x save_to present or not x a few combinations
+    for nsv in NAMESPACES:
+        for combo in (None, (0, 0, 0, 1), (1, 1, 1, 1), (1, 0, 0, 0), (0, 0, 1, 0)):
+            for ti in (0, 1):
+                for with_saveto in (False, True):
+                    rows, _ = flatten(TREES[ti])
+                    if with_saveto:
+                        rows[0]["save_to"] = "pa"
+                    ents = None if combo is None else [entity_row(rng, combo)]
+                    yield "namespaces-setting", mk_form(rows, ents, namespaces=nsv)
     # (6) types containing group / repeat as a substring (F25 family) at every question position
     for t in F25_TYPES + PLAIN_TYPES:
         for ti in (0, 1, 2):
@@ -256,7 +289,8 @@ def enumerate_cases(ctx, factor):
             if rng.random() < 0.07:
                 er[rng.choice(EXTRA_COLS)] = "v"
             ents = [er]
-        yield "random", mk_form(rows, ents, root=rng.choice([None, None, "f1", "Form-2"]))
+        yield "random", mk_form(rows, ents, root=rng.choice([None, None, "f1", "Form-2"]),
+                                namespaces=rng.choice(NAMESPACES) if rng.random() < 0.2 else None)
 
 
 # ----------------------------------------------------------------------------- observation
@@ -266,10 +300,17 @@ def find(el, tag):
     return [k for k in el["k"] if k.get("t") == tag]
 
 
+STD_PREFIXES = {"xmlns", "xmlns:h", "xmlns:ev", "xmlns:xsd", "xmlns:jr", "xmlns:orx", "xmlns:odk"}
+
+
+class NotWellFormed(Exception):
+    pass
+
+
 def observe(xform: str, root_name: str) -> dict:
     tree, err = xmlutil.expat_tree(xform)
     if tree is None:
-        raise vcore.Infra("XForm of the implementation does not parse: " + str(err))
+        raise NotWellFormed(str(err))
     rattrs = dict(tree["a"])
     head = find(tree, "h:head")[0]
     model = find(head, "model")[0]
@@ -311,6 +352,9 @@ def observe(xform: str, root_name: str) -> dict:
         "saveto": sorted(saveto),
         "version": ["entities:entities-version", mattrs["entities:entities-version"]] if "entities:entities-version" in mattrs else None,
         "xmlns": ["entities", rattrs["xmlns:entities"]] if "xmlns:entities" in rattrs else None,
+        # the other non-standard namespace declarations on the root element (settings `namespaces`)
+        "custom_ns": [[n[len("xmlns:"):], v] for n, v in tree["a"]
+                      if n.startswith("xmlns:") and n not in STD_PREFIXES and n != "xmlns:entities"],
         "stray": stray,
     }
 
@@ -333,15 +377,17 @@ def canon_out(o: dict) -> dict:
         "saveto": sorted([list(p) for p in o["saveto"]]),
         "version": list(o["version"]) if o.get("version") else None,
         "xmlns": list(o["xmlns"]) if o.get("xmlns") else None,
+        "custom_ns": [list(p) for p in o.get("customNs", [])],
         "stray": [],
     }
 
 
 KEYS = ("entity", "nodes", "saveto", "version", "xmlns", "stray")
+MODEL_KEYS = KEYS + ("custom_ns",)
 
 
-def diff(a: dict, b: dict) -> list[str]:
-    return [k for k in KEYS if a[k] != b[k]]
+def diff(a: dict, b: dict, keys=KEYS) -> list[str]:
+    return [k for k in keys if a[k] != b[k]]
 
 
 # ----------------------------------------------------------------------------- model / spec input
@@ -374,6 +420,13 @@ def ent_cells_spec(ents):
     return out
 
 
+def namespaces_of(form):
+    for st in form.get("settings") or []:
+        if st.get("namespaces"):
+            return st["namespaces"]
+    return None
+
+
 def root_of(form):
     for s in form.get("settings") or []:
         if s.get("name"):
@@ -394,29 +447,8 @@ def entities_version():
 
 # ----------------------------------------------------------------------------- known findings
 
-
-def begin_or_end(t: str) -> bool:
-    return bool(re.match(r"^(begin|end)(\s|_)", t or ""))
-
-
-def is_f25(f: Failure) -> bool:
-    """a row that is NOT a begin/end row, whose type contains 'group' or 'repeat' as a substring and that
-    carries save_to, is rejected by validate_entity_saveto's substring test (entities_parsing.py:95)"""
-    if f.kind != "rejected-valid":
-        return False
-    msg = f.extra.get("impl_msg", "")
-    m = re.match(r"^\[row : (\d+)\] Groups and repeats can't be saved as entity properties\.$", msg)
-    if not m:
-        return False
-    rows = f.case["form"]["survey"]
-    i = int(m.group(1)) - 2
-    if not (0 <= i < len(rows)):
-        return False
-    t = rows[i].get("type", "")
-    return bool(rows[i].get("save_to")) and not begin_or_end(t) and ("group" in t or "repeat" in t)
-
-
-MATCHERS = {"F25-saveto-type-substring": is_f25}
+# F25 (save_to on `select_one age_group` rejected by a substring test) is repaired in the tree: no open finding.
+MATCHERS = {}
 
 
 # ----------------------------------------------------------------------------- one case
@@ -426,18 +458,38 @@ def form_case(ctx, label, form):
     root = root_of(form)
     r = impl.run(form)
     sv = survey_cells(form["survey"])
-    model = ctx.driver.call("entities.model", root=root, entities=ent_cells_raw(form.get("entities")), survey=sv)
+    nsv = namespaces_of(form)
+    mkw = {"namespaces": nsv} if nsv is not None else {}
+    model = ctx.driver.call("entities.model", root=root, entities=ent_cells_raw(form.get("entities")), survey=sv, **mkw)
     spec = ctx.driver.call("entities.spec", root=root, version=entities_version(),
                            entities=ent_cells_spec(form.get("entities")), survey=sv)
     ctx.count(f"{label}: impl:{r['class']}/spec:{spec['outcome']}/model:{model['outcome']}")
     case = {"label": label, "form": form}
-    obs = observe(r["xform"], root) if r["ok"] else None
+    obs = None
+    if r["ok"]:
+        # a converted form must be namespace-well-formed XML: every `entities:` (and custom) prefix it uses declared
+        try:
+            obs = observe(r["xform"], root)
+        except NotWellFormed as e:
+            ctx.fail(Failure("not-well-formed", f"the XForm does not parse: {e}", case))
+            ctx.record(case, True)
+            return
+        if not xmlutil.expat_ns_ok(r["xform"]):
+            used = sorted({n.split(":")[0] for n in re.findall(r"[\s<]([A-Za-z_][\w.-]*:[\w.-]+)[=\s/>]", r["xform"])})
+            ctx.fail(Failure("unbound-prefix", "the XForm uses a namespace prefix that is not declared "
+                             f"(declared on the root: xmlns={obs['xmlns']}, custom={obs['custom_ns']}; prefixes used: {used})",
+                             case, extra={"xmlns": obs["xmlns"], "custom_ns": obs["custom_ns"]}))
 
     # ---- oracle: the documented table, on the implementation's output
     if spec["outcome"] == "rejected":
         if r["ok"]:
             ctx.fail(Failure("accepted-invalid", "a form the documented rules reject was converted", case,
                              extra={"observed": {k: obs[k] for k in KEYS}}))
+        elif r["class"] == "internal":
+            # "rejected" means a PyXFormError; a crash (e.g. the former KeyError for a sheet without dataset
+            # column, repaired in the tree) is not a rejection
+            ctx.fail(Failure("crash-on-invalid", "internal exception instead of a rejection: " + r["msg"][:200], case,
+                             extra={"impl_msg": r["msg"], "site": r.get("site")}))
     else:
         want = canon_out(spec)
         if r["ok"]:
@@ -461,7 +513,7 @@ def form_case(ctx, label, form):
             ctx.mismatch("model accepts, implementation rejects", case, r["msg"][:300], "ok")
         else:
             got = canon_out(model)
-            d = diff(obs, got)
+            d = diff(obs, got, MODEL_KEYS)
             if d:
                 ctx.mismatch("observation differs: " + ",".join(d), case, {k: obs[k] for k in d}, {k: got[k] for k in d})
             elif obs["nodes_in_order"] == got["nodes_in_order"]:
@@ -476,7 +528,8 @@ def form_case(ctx, label, form):
         elif model["kind"] == "columns":
             if r["class"] != "pyxform" or "unexpected column" not in r["msg"] or not all(f"'{c}'" in r["msg"] for c in model["columns"]):
                 ctx.mismatch("unknown-columns error differs", case, r["msg"][:400], model["columns"])
-        # kind == internal (entities sheet without dataset column, F34/C17): any rejection corresponds
+        elif model["kind"] == "internal" and r["class"] != "internal":
+            ctx.mismatch("model predicts an internal exception, implementation raises PyXFormError", case, r["msg"][:300], model)
     nontrivial = bool(form.get("entities")) or any(x.get("save_to") for x in form["survey"])
     ctx.record(case, nontrivial)
 
